@@ -15,10 +15,18 @@ CPUS = {
     "pdp11": (2, 6, 140, "thorough", ["STRINGS_ABSTRACT"], True),   # reads the following word before it knows the addressing mode needs it: locality is decided as 2-safety
     "tms9900": (2, 6, 140, "thorough", [], False),
     "6800": (1, 3, 300, "thorough", [], False),
-    "6809": (1, 5, 300, "thorough", [], False),
-    "68hc08": (1, 5, 300, "thorough", ["STRINGS_ABSTRACT"], True),   # reads the second opcode byte before it knows the first is a prefix: 2-safety form
+    # 6809 was tried (length 1..5) and does not finish (solver out of memory at 10 GB with 2^14 objects): not decided
+    # 68hc08 reads the second opcode byte before it knows the first is a prefix: 2-safety form; first byte 0x9e (prefix) is a class of its own (known finding)
+    "68hc08": (1, 4, 300, "thorough", ["STRINGS_ABSTRACT", "CLASS_MASK=0xff", "CLASS_VAL=0x9e"], True),
+    "68hc08.prefix9e": (1, 4, 300, "thorough", ["STRINGS_ABSTRACT", "CLASS_MASK=0xff", "CLASS_VAL=0x9e", "CLASS_ONLY"], True),
     "8051": (1, 3, 300, "thorough", [], False),
     "4004": (1, 2, 300, "thorough", [], False),
+    "8048": (1, 2, 300, "thorough", [], False),
+    "f8": (1, 3, 300, "thorough", [], False),
+    "m8c": (1, 3, 300, "thorough", [], False),
+    "sweet16": (1, 3, 300, "thorough", [], False),
+    "65816": (1, 4, 300, "thorough", [], False),
+    "stm8": (1, 5, 300, "thorough", [], False),
     # z80 (reads ahead, 2-safety form) was tried and does not finish (out of memory at 10 GB, timeout at 2400 s with 30 GB): not decided
 }
 GROUPS = []
@@ -31,10 +39,13 @@ for cpuname, (unit, maxlen, unw, tier, tables, two) in CPUS.items():
     GROUPS.append(Group(name="C08/disasm_%s" % cpuname, unity="C08/u_dis.cpp", entry="h_dis", c_sources=(["common/st_hash.c"] if "STRINGS_HASH" in tables else [] if "STRINGS_ABSTRACT" in tables else ["common/st_fmt.c"]),
                         functions=[("disasm_%s" % cpu, "disasm/%s.cpp" % cpu, "harness; table scans closed by unwinding %d with unwinding assertions" % unw),
                                    ("table_%s[]" % cpu, "table/%s.cpp" % cpu, "data")],
-                        defines=defs, unwind=unw, checks=CH, timeout=(2400 if two else 900), mem_gb=(30 if two else 10), tier=tier, extra_cbmc=(["--object-bits", "14"] if two or cpu in ("6809",) else [])))
-GROUPS.append(Group(name="C08/disasm_range_tms9900", unity="C08/u_range.cpp", entry="h_range",
-                    functions=[("disasm_range_tms9900", "disasm/tms9900.cpp", "harness+2 loop-contracts, any range (function text extracted verbatim)"), ("disasm_tms9900", "disasm/tms9900.cpp", "replaced by its contract (length 2/4/6), discharged by C08/disasm_tms9900")],
-                    loops="C08/range9900.loops.json", expected_loops=2, unwind=14, checks=CH, timeout=900))
+                        defines=defs, unwind=unw, checks=CH, timeout=(2400 if two else 900), mem_gb=(30 if two else 10), tier=tier, extra_cbmc=(["--object-bits", "14"] if two else [])))
+for cpu, unit, maxlen, note in (("tms9900", 2, 6, "discharged by C08/disasm_tms9900"), ("6800", 1, 3, "discharged by C08/disasm_6800"), ("68hc08", 1, 4, "discharged by C08/disasm_68hc08"), ("6809", 1, 5, "ASSUMED: C08/disasm_6809 does not finish")):
+    GROUPS.append(Group(name="C08/disasm_range_%s" % cpu, unity="C08/u_range.cpp", entry="h_range",
+                        functions=[("disasm_range_%s" % cpu, "disasm/%s.cpp" % cpu, "harness+2 loop-contracts, any range (function text extracted verbatim)"), ("disasm_%s" % cpu, "disasm/%s.cpp" % cpu, "replaced by its contract (length %d..%d), %s" % (unit, maxlen, note))],
+                        defines=["UNIT=%d" % unit, "MAXLEN=%d" % maxlen, "RANGEFN=disasm_range_%s" % cpu, "DISFN=disasm_%s" % cpu, "DISHDR=disasm/%s.h" % cpu, "RANGEINC=gen/disasm_range_%s.inc" % cpu],
+                        subst={"FN": "disasm_range_%s" % cpu, "UNIT": unit, "MAXLEN": maxlen, "TLEN": 5 if unit == 2 else 3},
+                        loops="C08/range.loops.json", expected_loops=2, unwind=14, checks=CH, timeout=900))
 GROUPS.append(Group(name="C08/UtilContext.disasm.pages[bounded]", unity="C19/u_util.cpp", entry="h_disasm_pages",
                     functions=[("UtilContext::disasm(uint32_t, uint32_t)", "core/UtilContext.cpp", "harness, bounded")], defines=["WIDTH=1"],
                     unwind=8, checks=CH, timeout=900, bounded="address ranges touching at most 4 pages of 64 KiB; which pages are in use and their used sub-ranges symbolic"))
